@@ -255,9 +255,17 @@ func (cl *w4Conn) applyUpdate(ks *w4KeyState, pub *protocol.Publication, what st
 		w.violate(true, "payload-mismatch", sig, "client %d key %s: update says v%d but the payload is the one of v%d (epoch %s) (%s)", cl.idx, pub.Key, pub.Version, rec.ver, rec.epoch, what)
 		return
 	}
-	if !cfg.Versioned && ks.pending == 0 && ks.has && rec.gen <= ks.gen && !ks.resumedClaim {
-		// versionless: the wire version is synthetic; the payload itself must not go back
+	if !cfg.Versioned && ks.pending == 0 && ks.has && rec.gen < ks.gen && !ks.resumedClaim {
+		// versionless: the wire version is synthetic; the payload itself must not go back.
+		// The SAME payload under a higher synthetic version is not a violation of C25
+		// (versions still strictly increase, the held data stays the newest): the server
+		// legitimately re-sends it when the key's item entry was re-created (last
+		// subscriber untracked and tracked again while a broadcast of the previous entry
+		// was still in flight). It is counted, not reported.
 		w.violate(false, "stale-data", "versionless: an older backend payload delivered after a newer one", "client %d key %s: payload generation %d after %d (wire versions %d after %d) (%s)", cl.idx, pub.Key, rec.gen, ks.gen, pub.Version, ks.base, what)
+	}
+	if !cfg.Versioned && ks.has && rec.gen == ks.gen {
+		w.s.Probe("same_payload_higher_synthetic_version")
 	}
 	if !pub.Delta {
 		ks.broken = false
